@@ -105,8 +105,69 @@ def model_cache(imports):
     return d
 
 
-def coqc(kv, work, f, timeout=120):
-    return run(['coqc', '-q', '-Q', kv, 'KV', '-Q', work, 'KVGen', '-w', COQ_WARN, f], cwd=work, timeout=timeout)
+BRIDGES = os.path.join(CRATE, 'bridges')
+
+
+def coqc(kv, work, f, timeout=120, cwd=None):
+    return run(['coqc', '-q', '-Q', kv, 'KV', '-Q', os.path.join(work, 'gen'), 'KVGen', '-Q', os.path.join(work, 'bridges'), 'KVBridge',
+                '-w', COQ_WARN, f], cwd=cwd or work, timeout=timeout)
+
+
+def compile_bridges(kv, work, wanted):
+    """Compile the hand-written bridge files against the freshly generated Gen.vo.
+    wanted: {module: [lemma ids]}.  Returns {lemma id: error} for the bridge lemmas that failed
+    (a failing lemma is cut out of the private copy of the file and the file recompiled, so that
+    the failure is attributed to that function only)."""
+    bdir = os.path.join(work, 'bridges')
+    shutil.rmtree(bdir, ignore_errors=True)
+    os.makedirs(bdir)
+    failed = {}
+    if not wanted:
+        return failed
+    lib = os.path.join(BRIDGES, 'BridgeLib.v')
+    if os.path.exists(lib):
+        shutil.copy(lib, bdir)
+        rc, out = coqc(kv, work, 'BridgeLib.v', timeout=120, cwd=bdir)
+        if rc != 0:
+            raise ToolError('bridges/BridgeLib.v does not compile:\n' + out[-2000:])
+    for mod, ids in sorted(wanted.items()):
+        src_path = os.path.join(BRIDGES, mod + '.v')
+        if not os.path.exists(src_path):
+            for i in ids:
+                failed[i] = 'bridge file bridges/%s.v is missing' % mod
+            continue
+        text = open(src_path).read()
+        for _ in range(len(ids) + 2):
+            open(os.path.join(bdir, mod + '.v'), 'w').write(text)
+            rc, out = coqc(kv, work, mod + '.v', timeout=90, cwd=bdir)
+            if rc == 0:
+                break
+            ln = error_line(out, mod + '.v')
+            lines = text.split('\n')
+            # the bridge lemma (Lemma br_<id> ... Qed.) enclosing the error
+            start = None
+            if ln is not None:
+                for k in range(min(ln, len(lines)) - 1, -1, -1):
+                    m = re.match(r'\s*Lemma\s+br_(\S+)\s*:', lines[k])
+                    if m:
+                        start = (k, m.group(1))
+                        break
+                    if re.match(r'\s*(Qed|Defined|Abort)\.', lines[k]) and k < ln - 1:
+                        break
+            if start is None:
+                for i in ids:
+                    failed.setdefault(i, 'bridge file %s.v fails outside a bridge lemma: %s' % (mod, short_err(out)))
+                break
+            k0, lid = start
+            k1 = k0
+            while k1 < len(lines) and not re.match(r'\s*(.*\s)?Qed\.\s*$', lines[k1]):
+                k1 += 1
+            failed[lid] = 'the bridge lemma br_%s no longer goes through: %s' % (lid, short_err(out))
+            text = '\n'.join(lines[:k0] + ['(* br_%s removed: it failed *)' % lid] * (k1 - k0 + 1) + lines[k1 + 1:])
+        else:
+            for i in ids:
+                failed.setdefault(i, 'bridge file %s.v keeps failing' % mod)
+    return failed
 
 
 def error_line(out, fname):
@@ -156,7 +217,8 @@ def main():
     # translate; definitions Coq rejects are excluded and the translation repeated (their users follow)
     t0 = time.time()
     excluded = []
-    gen = os.path.join(work, 'Gen.v')
+    os.makedirs(os.path.join(work, 'gen'), exist_ok=True)
+    gen = os.path.join(work, 'gen', 'Gen.v')
     for rnd in range(8):
         cmd = [BIN, repo, spec, gen]
         if excluded:
@@ -167,10 +229,10 @@ def main():
         rep = json.load(open(gen + '.json'))
         for ext in ('.vo', '.vok', '.vos', '.glob'):
             try:
-                os.remove(os.path.join(work, 'Gen' + ext))
+                os.remove(os.path.join(work, 'gen', 'Gen' + ext))
             except OSError:
                 pass
-        rc, out = coqc(kv, work, 'Gen.v')
+        rc, out = coqc(kv, work, 'Gen.v', cwd=os.path.join(work, 'gen'))
         if rc == 0:
             break
         ln = error_line(out, 'Gen.v')
@@ -185,6 +247,7 @@ def main():
         excluded.append((culprit['gen'], short_err(out)))
     else:
         raise ToolError('Gen.v still does not compile after excluding: %s' % excluded)
+    shutil.copy(gen, os.path.join(work, 'Gen.v'))   # the generated file, for the reader (the compiled copy is gen/Gen.v)
     timings['translate_and_compile_gen'] = round(time.time() - t0, 2)
 
     funs = [f for f in rep['functions'] if f['kind'] == 'tied']
@@ -198,13 +261,30 @@ def main():
 
     todo = [f for f in funs if f['status'] == 'translated']
     prelude = rep['prelude']
+    t0 = time.time()
+    wanted = {}
+    for f in todo:
+        if f.get('bridge'):
+            wanted.setdefault(f['bridge'], []).append(f['id'])
+    bridge_failed = compile_bridges(kv, work, wanted)
+    for f in todo:
+        if f.get('bridge') and f['id'] in bridge_failed:
+            results[f['id']] = ('differs', bridge_failed[f['id']])
+        elif f.get('bridge') and not os.path.exists(os.path.join(work, 'bridges', f['bridge'] + '.vo')):
+            results[f['id']] = ('differs', 'bridge file %s.v did not compile' % f['bridge'])
+    todo = [f for f in todo if f['id'] not in results]
+    compiled = [m for m in sorted(wanted) if os.path.exists(os.path.join(work, 'bridges', m + '.vo'))]
+    if compiled:
+        prelude += '\n' + '\n'.join('From KVBridge Require %s.' % m for m in compiled)
+    timings['bridges'] = round(time.time() - t0, 2)
 
     def write_eq(fs, name):
         lines = [prelude, '']
         spans = []
         for f in fs:
             start = sum(x.count('\n') + 1 for x in lines) + 1
-            lines.append('(* TR %s *)\nLemma tr_%s : %s.\nProof. tr_solve. Qed.' % (f['id'], f['id'], f['lemma']))
+            proof = 'intros; apply KVBridge.%s.br_%s.' % (f['bridge'], f['id']) if f.get('bridge') else 'tr_solve.'
+            lines.append('(* TR %s *)\nLemma tr_%s : %s.\nProof. %s Qed.' % (f['id'], f['id'], f['lemma'], proof))
             end = sum(x.count('\n') + 1 for x in lines)
             spans.append((f, start, end))
         open(os.path.join(work, name), 'w').write('\n'.join(lines) + '\n')
@@ -224,8 +304,9 @@ def main():
             # find every lemma that does not go through, in one diagnostic pass
             lines = [prelude, '']
             for f in todo:
-                lines.append('Goal %s.\nProof. tryif assert_succeeds (timeout 30 tr_solve) then idtac "TR_EQ %s" else idtac "TR_DIFF %s". Abort.'
-                             % (f['lemma'], f['id'], f['id']))
+                tac = '(intros; apply KVBridge.%s.br_%s)' % (f['bridge'], f['id']) if f.get('bridge') else 'tr_solve'
+                lines.append('Goal %s.\nProof. tryif assert_succeeds (timeout 30 %s) then idtac "TR_EQ %s" else idtac "TR_DIFF %s". Abort.'
+                             % (f['lemma'], tac, f['id'], f['id']))
             open(os.path.join(work, 'GenEqDiag.v'), 'w').write('\n'.join(lines) + '\n')
             rc2, out2 = coqc(kv, work, 'GenEqDiag.v', timeout=300)
             diffs = set(re.findall(r'TR_DIFF (\S+)', out2))
@@ -256,8 +337,9 @@ def main():
     out_f = []
     for f in funs:
         st, det = results.get(f['id'], ('untranslatable', 'internal: no verdict'))
-        out_f.append({'rust': f['rust'], 'model': f['model'], 'props': f['props'], 'status': st, 'detail': det,
-                      'gen': f['gen'], 'source': '%s:%s' % (f.get('file'), f.get('line'))})
+        o = {'rust': f['rust'], 'model': f['model'], 'props': f['props'], 'status': st, 'detail': det,
+             'gen': f['gen'], 'source': '%s:%s' % (f.get('file'), f.get('line')), 'via': 'bridge' if f.get('bridge') else 'reflexivity'}
+        out_f.append(o)
     out_h = [{'rust': f['rust'], 'kind': f['kind'], 'status': f['status'], 'detail': f['detail']} for f in helpers]
     summary = {'equal': 0, 'differs': 0, 'untranslatable': 0}
     per_prop = {}
